@@ -145,8 +145,9 @@ type World struct {
 
 	// HoldArgs (C14): instances keep what they were constructed with alive, the
 	// ledger keeps no strong reference to built-in arguments.
-	HoldArgs bool
-	OnMade   func(obj any) // called for every instance a constructor makes
+	slotsUsed int // generic top-level kinds claim global slots (kinds_gen.go)
+	HoldArgs  bool
+	OnMade    func(obj any) // called for every instance a constructor makes
 }
 
 func NewWorld(cfg *Config) (*World, error) {
@@ -472,6 +473,47 @@ func (w *World) invoke(r *Reg, ft reflect.Type, args []reflect.Value) []reflect.
 	}
 	inv.Outcome = 1
 	return res
+}
+
+// invokeStatic is the body of the static constructor kinds (plain form, at most
+// one plain dependency): same ledger work as the reflect.MakeFunc trampoline.
+func (w *World) invokeStatic(r *Reg, args []any) (any, error) {
+	inv := w.begin(r)
+	for i, d := range r.Deps {
+		if args[i] == nil {
+			inv.Args = append(inv.Args, ArgRec{Dep: d})
+			continue
+		}
+		inv.Args = append(inv.Args, w.decodeArg(d, reflect.ValueOf(args[i])))
+	}
+	if w.Gate != nil {
+		w.Gate(GatePoint{Kind: GateCtorEnter, Inv: inv, Goid: inv.Goid})
+	}
+	w.mu.Lock()
+	f := w.Faults[[2]int{r.ID, inv.N}]
+	w.mu.Unlock()
+	switch f.Kind {
+	case FaultPanic:
+		inv.Outcome = 3
+		inv.EndSeq = w.NextSeq()
+		panic(f.Panic)
+	case FaultError:
+		if r.HasErr {
+			inv.Outcome = 2
+			inv.EndSeq = w.NextSeq()
+			return nil, f.Err
+		}
+	}
+	e, obj := w.newEntry(r, 0, r.Outs[0].Impl, inv)
+	inv.Outs = append(inv.Outs, e)
+	if w.Gate != nil {
+		w.Gate(GatePoint{Kind: GateCtorExit, Inv: inv, Goid: inv.Goid})
+	}
+	end := w.NextSeq()
+	inv.EndSeq = end
+	e.BornSeq = end
+	inv.Outcome = 1
+	return obj.Interface(), nil
 }
 
 // heldTargets lists the freshly made instances inside a result list.
